@@ -49,6 +49,10 @@ func isoGen(gen func(*driver.Rand, bool) *driver.Plan, ok func(*driver.Plan) boo
 		if tweak != nil {
 			tweak(r, a, b)
 		}
+		if r.Chance(1, 5) {
+			// more than a thousand other stages of the package are alive
+			a.SetX("crowd", driver.Pick(r, 1030, 1100, 2100))
+		}
 		a.Twin = b
 		return a
 	}
@@ -89,6 +93,12 @@ func withTwin(sc *driver.Scenario, clause string, ok func(*driver.Plan) bool, tw
 
 func initTwins() {
 	any := func(*driver.Plan) bool { return true }
+	withTwin(Scenarios["C05"], "C05.a", any, func(r *driver.Rand, a, b *driver.Plan) {
+		// C05 speaks about complete runs: both instances get their inputs closed
+		for i := range a.Producers {
+			a.Producers[i].NoClose = false
+		}
+	})
 	withTwin(Scenarios["C06"], "C06.b", notGenerator, nil)
 	withTwin(Scenarios["C09"], "C09.b", any, nil)
 	withTwin(Scenarios["C12"], "C12.a", any, nil)
